@@ -107,3 +107,40 @@ def genfn(n):
     for i in range(n):
         got = yield i
     return n
+
+
+# ---- identifiers that collide with other kinds of names
+def total(xs):
+    total = 0                 # a local named like the function itself
+    for x in xs:
+        total += x
+    return total
+
+
+def report(n):
+    def fmt(v):
+        return v
+    fmt = n                   # the name of a nested def, rebound by a plain assignment
+    len = n                   # a local that shadows a builtin
+    math = len                # a local that shadows a module global
+    GLOB = math
+    match = GLOB              # soft keywords are ordinary identifiers
+    type = match
+    _ = type
+    __dunder__ = _
+    ünï = __dunder__          # non-ASCII identifier
+    return fmt
+
+
+# ---- annotations on locals are never evaluated by Python: whatever evaluating them would do must not matter
+import collections
+import typing
+
+
+def annotated(k, w: "not a type" = 0):
+    buf: collections.Deque[int] = k             # evaluating raises AttributeError
+    found: typing.Optional[int, None] = None    # evaluating raises TypeError
+    late: NotDefinedAnywhere = 1                # evaluating raises NameError
+    div: (1 // 0) = 2                           # evaluating raises ZeroDivisionError
+    text: "some string" = 3
+    return buf, found, late, div, text, sum
